@@ -506,8 +506,9 @@ var (
 	c01Prefixes  = []string{"/a", "/a/", "/", "/b", "/ab"}
 	c01PathREs   = []string{`^/a(.*)$`, `/([a-z]+)/([0-9]+)`, `^/b$`, `^/[ab]+$`, `a`, `^/(a|b)/`, `^/a/[^/]+$`, `^/a/(.*)$`}
 	c01ReqPaths  = []string{"/a", "/ab", "/a/b", "/b", "/", "/a/", "/a/b/1", "/x/12", "", "/ab/12", "/c", "/abc", "/B", "/a/12", "/b/", "/a/A", "/a%b", "/a?b"}
-	c01Methods   = []string{"GET", "POST", "PUT", "DELETE"}
-	c01ReqMeths  = []string{"GET", "POST", "PUT", "DELETE", "mGET", "get", "PATCH", "mPOST"}
+	// the full list the schema's httpmethod-array format allows (pkg/v/format.go), in its order
+	c01Methods   = []string{"GET", "HEAD", "POST", "PUT", "PATCH", "DELETE", "CONNECT", "OPTIONS", "TRACE"}
+	c01ReqMeths  = []string{"GET", "HEAD", "POST", "PUT", "PATCH", "DELETE", "CONNECT", "OPTIONS", "TRACE", "mGET", "get", "mPOST", "PURGE"}
 	c01HdrKeys   = []string{"X-Test", "x-env", "Accept", "X-TEST", "X-Forwarded-Host", "X-Forwarded-For"}
 	c01HdrVals   = []string{"v1", "v2", "v3", "", "V1", "v10", "a.com", "8.8.8.8"}
 	c01HdrREs    = []string{`^v[0-9]$`, `^$`, `1`, `.*`, `^v1`}
@@ -592,7 +593,7 @@ func c01GenPath(r *vfRand, base *c01Path, filtNum int, malformed bool) c01Path {
 		}
 	}
 	if r.Chance(1, 2) {
-		p.Methods = c01Subset(r, c01Methods, 2)
+		p.Methods = c01Subset(r, c01Methods, 3) // 1-3 distinct methods: each occurs alone and last in some list
 	}
 	if r.Chance(2, 5) {
 		n := r.Range(1, 3)
